@@ -51,7 +51,7 @@ type OptModel struct {
 }
 
 var (
-	entryNameT = []string{"", "[dir]/[name]", "[name]-[hash]", "e/[name].[hash]", "[dir]/[name]-[hash]", "[ext]/[name]-[hash]"}
+	entryNameT = []string{"", "[dir]/[name]", "[name]-[hash]", "e/[name].[hash]", "[dir]/[name]-[hash]", "[ext]/[name]-[hash]", "[name]"}
 	chunkNameT = []string{"", "chunks/[name]-[hash]", "[hash]", "c/[hash]-[name]"}
 	assetNameT = []string{"", "assets/[name]-[hash]", "[name]", "[dir]/[name]", "a/[hash]"}
 	publicPathT = []string{"", "https://cdn.example.com/base", "/static/", "../up"}
